@@ -1,5 +1,6 @@
 import Gleece.Driver.IRHandler
 import Gleece.Model.Validate
+import Gleece.Model.Paths
 open Lean
 namespace Gleece.Driver
 open Gleece.Validate Gleece.IR
@@ -91,6 +92,22 @@ def modelDiags (p : PProject) : Option (List EDiag) :=
             ds2 ++ r.map fun d => (⟨c.name, pm.m.name, d.code, d.severity⟩ : EDiag)) (some [])
       ms.map fun m => ds ++ self ++ m) (some [])
 
+/-- `ApiValidator.inPlaceAppendPathConflictDiagnostics`: every receiver named by a conflict gets a
+    `route-conflict` warning; the entries are (verb, the METHOD's own @Route text) of every receiver of every
+    controller — the controller prefix is not part of the entry.  Compared per receiver, not per pair. -/
+def conflictDiags (p : PProject) : List EDiag :=
+  let recs : List (String × String × String × String) := p.controllers.flatMap fun c =>
+    if c.noEmbed then [] else (c.methods.filter (isRoute ·.m)).map fun pm =>
+      (c.name, pm.m.name, ((pm.m.annots.find? (·.name = "Method")).map (·.value)).getD "", ((pm.m.annots.find? (·.name = "Route")).map (·.value)).getD "")
+  let entries := Gleece.Paths.mkEntries (recs.map fun (_, _, v, r) => (v, r))
+  let cs := Gleece.Paths.findConflicts entries
+  let flagged := (cs.flatMap fun c => [c.a.id, c.b.id]).eraseDups
+  flagged.filterMap fun i => (recs[i]?).map fun (c, m, _, _) => ⟨c, m, "route-conflict", 2⟩
+
+/-- one `route-conflict` per receiver (the implementation adds one per conflicting partner) -/
+def dedupConflicts (l : List EDiag) : List EDiag :=
+  l.foldl (fun acc d => if d.code = "route-conflict" && acc.contains d then acc else acc ++ [d]) []
+
 def implDiags (impl : Json) : List EDiag :=
   (jarrD impl "diags").toList.map fun d => ⟨jstrD d "controller", jstrD d "entity", jstrD d "code", (jnat d "severity").toOption.getD 0⟩
 
@@ -141,8 +158,8 @@ def c10FindingOf (ctrlRoute : String) (m : Method) (accepted : Bool) (wl : List 
   else ""
 
 def checkC10 (p : PProject) (impl : Json) : PropOut := Id.run do
-  let md := modelDiags p
-  let idg := implDiags impl
+  let md := (modelDiags p).map fun ds => dedupConflicts (ds ++ conflictDiags p)
+  let idg := dedupConflicts (implDiags impl)
   let valErr := jstrD impl "validateErr"
   let mut fails : List String := []
   let mview : Json := match md with
